@@ -98,7 +98,9 @@ func verifyRAs(a, b *ndp.RouterAdvertisement) []problem {
 // checkRAs verifies the base non-option fields of a and b for consistency.
 func checkRAs(a, b *ndp.RouterAdvertisement) problems {
 	var ps problems
-	if a.CurrentHopLimit != b.CurrentHopLimit {
+	// A hop limit of zero means unspecified by that router, which is consistent
+	// with any value.
+	if a.CurrentHopLimit != 0 && b.CurrentHopLimit != 0 && a.CurrentHopLimit != b.CurrentHopLimit {
 		ps.push("hop_limit", "", a.CurrentHopLimit, b.CurrentHopLimit)
 	}
 
